@@ -16,7 +16,7 @@ replay: each terminal state -> doctest text (statement shapes one-line /
 """
 from . import common, runlib
 
-BOUNDS = {'quick': dict(n=3, limit=None), 'thorough': dict(n=4, limit=400000)}
+BOUNDS = {'quick': dict(n=3, limit=None), 'thorough': dict(n=3, limit=None, core=5)}
 
 
 def extra(exp, obs, wants, rot):
@@ -33,11 +33,16 @@ def run(tier):
     out.rule = ('every event sequence of <= %d parts over C04_Parts (36 part kinds) x 3 default-option settings reachable in DocRun.tla; '
                 'non-trivial when a directive or default option is present' % b['n'])
     runs = [dict(label='C04', parts='C04_Parts', maxparts=b['n'], opts='C04_Opts', limit=b['limit'])]
+    if b.get('core'):
+        # longer sequences over the core alphabet (12 part kinds)
+        runs.append(dict(label='C04 core', parts='C04_Core', maxparts=b['core'], opts='C04_Opts', limit=300000))
     runlib.docrun_check(out, runs, nontrivial_fn=nontrivial, extra_check=extra)
     for dev in ('OverlayLeaks', 'InlineToGlobal', 'InlineSetOnEmptyOverlay'):
         runlib.deviation_must_fail(out, 'C04_Parts', 2, dev, opts='C04_Opts')
     out.assumptions = ['unmet/met conditions are env:, module: and command-line-flag requirements controlled by the harness',
                        'directive-looking text inside string literals: see the C01/C13 parser checks']
+    # random longer programs (5..8 parts) from TLC's simulation mode over the same specification
+    runlib.simulate_replay(out, 'C04_Parts' + ' 5..8 parts', 'C04_Parts', 5, 8, 800 if tier == 'quick' else 15000, opts='C04_Opts')
     from . import tracelib
     tracelib.traced_replay(out, 'C04_Parts<=2', 'C04_Parts', 2, opts='C04_Opts')
     return out.finish()
